@@ -106,7 +106,7 @@ func tryObligationTemplate(fr *FuncResult, o *Obligation) (string, map[string]an
 	pkgDir := strings.TrimPrefix(fr.VC.fn.Pkg.Pkg.Path(), repoModule+"/")
 	out, _ := runGoTest(pkgDir, string(data), "TestVerifReplay", "verif")
 	extra := map[string]any{"package_dir": pkgDir, "test_name": "TestVerifReplay", "build_tags": "verif", "go_test": string(data), "real_output": lastLines(out, 12)}
-	if strings.Contains(out, "VERIF-REPLAY violation") {
+	if strings.Contains(out, "VERIF-REPLAY violation") || (strings.Contains(string(data), "// verif:race") && strings.Contains(out, "WARNING: DATA RACE")) {
 		return "reproduced", extra, true
 	}
 	extra["replay_note"] = "the scenario harness for this obligation does not violate it on the real code"
